@@ -3,7 +3,7 @@ PROP = dict(
     pkg=".", test="TestVerifC01", files=["mc/c01/*.go"], libs=["explore", "canon", "sim"],
     engine="E2 simx", level="fault_enumeration", shards="ncpu", gomaxprocs=1,
     env={"GODEBUG": "randseednop=0,asyncpreemptoff=1"},
-    deterministic=False,
+    deterministic=False, crash_is_violation=True,
     deadline=dict(quick=100, thorough=1100),
     rule="whole client+server connections of the real implementation in a synctest bubble over a fault-injecting router; one execution per static fault map (slot -> fate)",
     assumptions=["goroutine interleavings inside the connection are chosen by the Go runtime (GOMAXPROCS=1), not enumerated; oracles are schedule-independent",
